@@ -175,6 +175,8 @@ func (c *ExpressionParser) matchTokensWithTypes(types ...int) bool {
 			matches = c.initialTokens[c.currentTokenIndex+i].Type() == typ
 		} else {
 			matches = false
+		}
+		if !matches {
 			break
 		}
 	}
